@@ -13,7 +13,7 @@ def gen(rep, family, consts, nparts=8, timeout=900, lemmas=('Lemmas', 'L_Progres
     def one(part):
         cfg = os.path.join(w, 'g%d.cfg' % part)
         outp = os.path.join(w, 'g%d.ndjson' % part)
-        c = dict(MaxUnits=2, MaxSig=1, MaxItems=1, WsVariants='{0}', KindIdx='{1,2,3,4,5,6,7,8,9,10,11,12}', NParts=nparts, Part=part)
+        c = dict(MaxUnits=2, MaxSig=1, MaxItems=1, WsVariants='{0}', KindIdx='{1,2,3,4,5,6,7,8,9,10,11,12}', ItemIdx='{1,2,3,4,5,6,7,8,9,10,11,12,13,14,15,16,17,18,19,20,21}', NParts=nparts, Part=part)
         c.update(consts)
         with open(cfg, 'w') as f:
             f.write('SPECIFICATION Spec%s\nCONSTANTS\n' % family)
@@ -41,6 +41,8 @@ def gen(rep, family, consts, nparts=8, timeout=900, lemmas=('Lemmas', 'L_Progres
 def op_token(o):
     if o[0] == 'p':
         return 'p:%s:%d' % (o[1], 1 if o[2] else 0)
+    if o[0] == 'pa':
+        return 'pa:%s:%d:%d' % (o[1], o[2], 1 if o[3] else 0)
     if o[0] == 'r':
         if o[1] in ('i32', 'bool'):
             return 'r:%s:%d' % (o[1], o[2])
